@@ -120,7 +120,8 @@ def load_known():
 
 def match_known(o, prop, known):
     for k in known.get('findings', []):
-        if k.get('property') != prop:
+        props = k.get('properties') or [k.get('property')]
+        if prop not in props:
             continue
         key = k.get('key', {})
         if k.get('rule') == o.rule and key.get('file') == o.file and key.get('function') == o.func \
